@@ -706,12 +706,12 @@ impl Array {
     /// ```
     pub fn op(arrays: &[&Array], op: ForwardOp, backward_op: Option<BackwardOp>) -> Array {
         let result = op(arrays);
-        if let Some(backward_op) = backward_op {
-            result
+        match backward_op {
+            // an operation with every child untracked outputs an untracked array, and stores no subgraph information
+            Some(backward_op) if arrays.iter().any(|v| v.is_tracked.get()) => result
                 .with_children(arrays.iter().map(|v| (*v).clone()).collect())
-                .with_backward_op(backward_op)
-        } else {
-            result
+                .with_backward_op(backward_op),
+            _ => result,
         }
     }
 }
